@@ -1,4 +1,5 @@
 import LlgoVerif.Lemmas.Sema
+import LlgoVerif.Lemmas.AtomicValue
 import LlgoVerif.Spec.Atomics
 import LlgoVerif.Gen.C11Atomics
 /-!
@@ -228,5 +229,42 @@ theorem atomics_lowering : ∀ e ∈ Gen.C11.table, e.ok = true := by decide
 
 /-- … and the table has a row for every entry point -/
 theorem atomics_complete : ∀ f ∈ Fn.all, (Gen.C11.table.any fun e => e.fn == f) = true := by decide
+
+/-! ## 4. `atomic.Value` (`runtime/internal/lib/sync/atomic/value.go`): the first-store protocol
+
+Model: `Model/AtomicValue.lean` — `Store`, `Load`, `Swap`, `CompareAndSwap` at atomic-access granularity (type word
+`nil → firstStoreInProgress → real type`, data word), any number of threads, any programs, every interleaving. -/
+
+/-- **A `Load` (or the old value of a `Swap`) never yields a (type, data) pair that nobody stored**: it observes either
+    nothing (`nil`, not recorded) or a value that some `Store`/`Swap`/`CompareAndSwap` call of the programs passed in,
+    completely — in particular never a real type word next to the initial `nil` data word. -/
+theorem value_load_observes_stored (progs : List (List AValue.Op)) (s : AValue.State)
+    (h : AValue.Reachable (AValue.init progs) s) : ∀ v ∈ s.sh.observed, v ∈ AValue.offered progs :=
+  fun v hv => (AValue.written_offered h).2 v ((AValue.inv_reachable h).i5 v hv)
+
+/-- the published type word always comes with a data word stored under that type, and it never changes again -/
+theorem value_published_complete (progs : List (List AValue.Op)) (s : AValue.State)
+    (h : AValue.Reachable (AValue.init progs) s) (τ : Nat) (hτ : s.sh.typ = .real τ) :
+    (τ, s.sh.data) ∈ AValue.offered progs :=
+  (AValue.written_offered h).2 _ ((AValue.inv_reachable h).i1 τ hτ)
+
+/-- only the thread whose CAS won is inside the first store -/
+theorem value_first_store_exclusive (progs : List (List AValue.Op)) (s : AValue.State)
+    (h : AValue.Reachable (AValue.init progs) s) (j k : Nat) (u w : AValue.Thread)
+    (hu : s.threads[j]? = some u) (hw : s.threads[k]? = some w)
+    (fu : AValue.inFirstStore u = true) (fw : AValue.inFirstStore w = true) : j = k := by
+  have a := ((AValue.inv_reachable h).i6 j u hu fu).2
+  have b := ((AValue.inv_reachable h).i6 k w hw fw).2
+  rw [a] at b
+  simpa using b
+
+/-- a concrete contended run: the first `Store` is interrupted after the data word, a `Load` sees nothing, a second
+    `Store` spins, the `Load` after publication sees the complete value -/
+example : ∃ s, AValue.Reachable (AValue.init [[.store (1, 5)], [.load, .load], [.store (1, 7)]]) s ∧
+    s.sh.observed = [(1, 5)] ∧ s.sh.typ = .real 1 := by
+  have hr : AValue.run (AValue.init [[.store (1, 5)], [.load, .load], [.store (1, 7)]]) [0, 0, 0, 1, 2, 0, 1, 1] =
+      some ⟨⟨.real 1, 5, [(1, 5)], [(1, 5)], some 0⟩,
+        [⟨.done, [], 1⟩, ⟨.done, [], 2⟩, ⟨.sLoad (1, 7), [], 0⟩]⟩ := by decide
+  exact ⟨_, AValue.run_reachable _ _ _ .refl hr, rfl, rfl⟩
 
 end LlgoVerif.C11
